@@ -72,6 +72,11 @@ def build(style):
              'velz': v[2]}
     if style == 'fluid':
         inp = dict(base, rho0=rho0, eps=eps, **fluid)
+    elif style == 'fluid-velup3':
+        # the Eulerian velocity as one array (the key the ET reader and
+        # over_time produce) instead of velx, vely, velz
+        fl = {k: x for k, x in fluid.items() if not k.startswith('vel')}
+        inp = dict(base, rho0=rho0, eps=eps, velup3=v.copy(), **fl)
     elif style == 'rho':
         inp = dict(base, rho=rho, eps=eps, **fluid)
     elif style == 'rho+rho0':
@@ -184,11 +189,10 @@ def _run_style(style):
                 ref['rho0'] != 0, cf['enth'], rel['enthalpy']))
             chk('conserved_D', rel['conserved_D'], cf['D'])
             chk('conserved_E', rel['conserved_E'], cf['D'] * ref['eps'])
-            Sd4 = cf['D'] * np.where(ref['rho0'] != 0, cf['enth'], 0) \
+            # S_mu = sqrt(gamma) W (rho + p) u_mu, also where rho0 = 0
+            Sd4 = cf['sg'] * ref['W'] * (ref['rho'] + ref['press']) \
                 * cf['ud']
-            mask0 = ref['rho0'] != 0
-            chk('conserved_Sdown4', rel['conserved_Sdown4'] * mask0,
-                Sd4 * mask0)
+            chk('conserved_Sdown4', rel['conserved_Sdown4'], Sd4)
             chk('conserved_Sdown3', rel['conserved_Sdown3'],
                 rel['conserved_Sdown4'][1:])
             chk('conserved_Sup4=g^-1 Sdown4', np.einsum(
@@ -293,7 +297,7 @@ def _run_style(style):
 # a non-zero cosmological constant throughout: it only enters the Ricci
 # tensor derived from T, R_mn = Lambda g_mn + kappa (T_mn - T g_mn / 2)
 LAMBDA = 0.35
-STYLES = ('fluid', 'rho', 'rho+rho0', 'Tdown4')
+STYLES = ('fluid', 'fluid-velup3', 'rho', 'rho+rho0', 'Tdown4')
 FLUID_ONLY = ('rho', 'rho0', 'eps', 'enthalpy', 'uup4', 'udown4', 'hdown4',
               'hmixed4', 'hup4', 'conserved_D', 'conserved_E',
               'conserved_Sdown4', 'conserved_Sdown3', 'conserved_Sup4',
